@@ -924,6 +924,36 @@ scpi_bool_t SCPI_ParamToUInt64(scpi_t * context, scpi_parameter_t * parameter, u
 }
 
 /**
+ * Copy decimal numeric token without white space.
+ * IEEE 488.2 7.7.2.2 allows white space around the exponent mark (e.g. "1.5 E 3"),
+ * strtod()/strtof() stop there.
+ * @param parameter - decimal numeric token (with or without suffix)
+ * @param buffer - result, NUL terminated
+ * @param len - size of buffer
+ * @return buffer, or the token itself if it contains no white space or does not fit
+ */
+static const char * decimalWithoutWhitespace(const scpi_parameter_t * parameter, char * buffer, size_t len) {
+    int i;
+    size_t pos = 0;
+
+    for (i = 0; i < parameter->len; i++) {
+        if (!isspace((unsigned char) parameter->ptr[i])) {
+            if (pos + 1 >= len) {
+                return parameter->ptr;
+            }
+            buffer[pos++] = parameter->ptr[i];
+        }
+    }
+
+    if (pos == (size_t) parameter->len) {
+        return parameter->ptr;
+    }
+
+    buffer[pos] = '\0';
+    return buffer;
+}
+
+/**
  * Convert parameter to float (32 bit)
  * @param context
  * @param parameter
@@ -933,6 +963,7 @@ scpi_bool_t SCPI_ParamToUInt64(scpi_t * context, scpi_parameter_t * parameter, u
 scpi_bool_t SCPI_ParamToFloat(scpi_t * context, scpi_parameter_t * parameter, float * value) {
     scpi_bool_t result;
     uint32_t valint;
+    char buffer[64];
 
     if (!value) {
         SCPI_ErrorPush(context, SCPI_ERROR_SYSTEM_ERROR);
@@ -948,7 +979,7 @@ scpi_bool_t SCPI_ParamToFloat(scpi_t * context, scpi_parameter_t * parameter, fl
             break;
         case SCPI_TOKEN_DECIMAL_NUMERIC_PROGRAM_DATA:
         case SCPI_TOKEN_DECIMAL_NUMERIC_PROGRAM_DATA_WITH_SUFFIX:
-            result = strToFloat(parameter->ptr, value) > 0 ? TRUE : FALSE;
+            result = strToFloat(decimalWithoutWhitespace(parameter, buffer, sizeof (buffer)), value) > 0 ? TRUE : FALSE;
             break;
         default:
             result = FALSE;
@@ -966,6 +997,7 @@ scpi_bool_t SCPI_ParamToFloat(scpi_t * context, scpi_parameter_t * parameter, fl
 scpi_bool_t SCPI_ParamToDouble(scpi_t * context, scpi_parameter_t * parameter, double * value) {
     scpi_bool_t result;
     uint64_t valint;
+    char buffer[64];
 
     if (!value) {
         SCPI_ErrorPush(context, SCPI_ERROR_SYSTEM_ERROR);
@@ -981,7 +1013,7 @@ scpi_bool_t SCPI_ParamToDouble(scpi_t * context, scpi_parameter_t * parameter, d
             break;
         case SCPI_TOKEN_DECIMAL_NUMERIC_PROGRAM_DATA:
         case SCPI_TOKEN_DECIMAL_NUMERIC_PROGRAM_DATA_WITH_SUFFIX:
-            result = strToDouble(parameter->ptr, value) > 0 ? TRUE : FALSE;
+            result = strToDouble(decimalWithoutWhitespace(parameter, buffer, sizeof (buffer)), value) > 0 ? TRUE : FALSE;
             break;
         default:
             result = FALSE;
